@@ -1,14 +1,13 @@
 SPECIFICATION Spec
 CONSTANTS
-  NS = 2
+  NS = 1
   NM = 2
   MaxOps = 4
-  Bases <- BothBases
+  Bases <- PlainOnly
   Edits <- AllEdits
   MaxEdits = 2
   InitThr <- BOOLEAN
-  Ops <- AllOps
-VIEW ViewNoEv
+  Ops <- CacheOps
 INVARIANT TypeOK
 INVARIANT ClassesAreContents
 INVARIANT LastIsOwn
